@@ -240,15 +240,22 @@ def execute(trace: dict) -> Result:
 
                 U0, net0 = used
                 mode = var["copy"] if not uspec.get("user_subclasses") else "deepcopy"  # local classes cannot be pickled
-                if mode == "deepcopy":
-                    memo = {}
-                    net_c = copy.deepcopy(net0, memo)
-                    twin_of = lambda el: memo[id(el)]  # noqa: E731
-                else:
-                    els0 = [U0.obj(r) for r in sorted(values)]
-                    net_c, els_c = pickle.loads(pickle.dumps((net0, els0)))
-                    m_ = {id(a): b for a, b in zip(els0, els_c)}
-                    twin_of = lambda el: m_[id(el)]  # noqa: E731
+                try:
+                    if mode == "deepcopy":
+                        memo = {}
+                        net_c = copy.deepcopy(net0, memo)
+                        twin_of = lambda el: memo[id(el)]  # noqa: E731
+                    else:
+                        els0 = [U0.obj(r) for r in sorted(values)]
+                        net_c, els_c = pickle.loads(pickle.dumps((net0, els0)))
+                        m_ = {id(a): b for a, b in zip(els0, els_c)}
+                        twin_of = lambda el: m_[id(el)]  # noqa: E731
+                    twin_of(U0.obj(sorted(values)[0]))
+                except Exception as e:
+                    # whether networks can be copied / pickled at all is not promised by the property
+                    res.probes["copy_not_possible:" + type(e).__name__] += 1
+                    net_c = None
+            if var.get("copy") and net_c is not None:
                 ic = {twin_of(el): d for el, d in dyn.numeric_init(U0, values, zero_d).items()}
                 net_c.step(init_conditions=ic, engine=make_engine("numpy"), **opts)
                 got = {}
